@@ -93,7 +93,7 @@ func TestVerifKVTrace(t *testing.T) {
 				a.Name = "DeployRefused"
 			}
 			switch a.Name {
-			case "CachePut", "CacheDelete", "ContractPut", "Migrate", "Destroy", "Deploy":
+			case "CachePut", "CacheDelete", "ContractPut", "Migrate", "Destroy", "Deploy", "MarkDestroyed":
 				clean = false
 			case "CacheCommit", "CacheReset", "OvlCommit":
 				clean = true
@@ -154,6 +154,16 @@ func kvGenAct(rng *rand.Rand, in *kvTraceIn, clean bool, deployed, destroyed map
 				}
 				return kvAct{Name: "ContractPut", C: c, K: ks[rng.Intn(len(ks))], V: val()}
 			}
+			if rng.Intn(3) == 0 {
+				// a write in the name of an address that is not a live contract: must be refused
+				var ks []int
+				for i, k := range in.KeySeq {
+					if k[0] == c[0] {
+						ks = append(ks, i+1)
+					}
+				}
+				return kvAct{Name: "PutRefused", C: c, K: ks[rng.Intn(len(ks))], V: val()}
+			}
 		case r < 55:
 			return kvAct{Name: "Deploy", C: c}
 		case r < 63:
@@ -163,6 +173,11 @@ func kvGenAct(rng *rand.Rand, in *kvTraceIn, clean bool, deployed, destroyed map
 		case r < 74:
 			if clean {
 				return kvAct{Name: "OvlCommit"}
+			}
+		case r < 77:
+			// operator lists the address as destroyed (live contracts preferred: record and storage stay)
+			if !destroyed[c[0]] && (deployed[c[0]] || rng.Intn(4) == 0) {
+				return kvAct{Name: "MarkDestroyed", C: c}
 			}
 		case r < 88:
 			d := in.Contracts[rng.Intn(len(in.Contracts))]
